@@ -189,6 +189,9 @@ type Scenario struct {
 
 // StdFail maps scheduler-level failures to a Fail: deadlock, livelock, panic.
 func StdFail(res *vs.Result) *Fail {
+	if strings.Contains(res.Deadlock, "did not return within") {
+		return &Fail{Sig: "hang: the operation never returns", Detail: res.Deadlock}
+	}
 	if res.Deadlock != "" {
 		return &Fail{Sig: "deadlock", Detail: res.Deadlock}
 	}
@@ -259,7 +262,11 @@ func (c *Ctx) exploreBase(sc Scenario, base int) {
 		}
 		// confirm: the same vector must fail the same way every time
 		full := res.Choices()
-		for i := 0; i < 5; i++ {
+		confirmations := 5
+		if strings.HasPrefix(f.Sig, "hang:") {
+			confirmations = 1 // each confirmation costs the full wall-clock guard
+		}
+		for i := 0; i < confirmations; i++ {
 			_, f2 := c.runOnce(sc, base, full, nil)
 			if f2 == nil || f2.Sig != f.Sig {
 				got := "<none>"
